@@ -280,7 +280,7 @@ def generate(name, expanded_src=None):
                 ret = e.opts.get('ret')
                 rename = e.opts.get('as')
                 vis = '' if ' for ' in (' ' + e.impl + ' ') and e.impl not in ('-', '') else 'pub '
-                text, _ = rsx.normalise_fn(raw, cfg, rename=rename, ret_name=ret, vis=vis, revloops=e.opts.get('revloops'), lebytes=bool(e.opts.get('lebytes')))
+                text, _ = rsx.normalise_fn(raw, cfg, rename=rename, ret_name=ret, vis=vis, revloops=e.opts.get('revloops'), lebytes=bool(e.opts.get('lebytes')), destruct=bool(e.opts.get('destruct')), localconst=bool(e.opts.get('localconst')))
                 if e.trusted:
                     # signature + spec only; body replaced by unimplemented!()
                     toks = rsx.tokenize(text)
@@ -299,7 +299,7 @@ def generate(name, expanded_src=None):
                     woven = rsx.weave(text, spec=e.spec if e.spec.strip() else None, hints=e.hints)
                     # erasure check
                     got = rsx.erase_tokens(woven)
-                    want_toks = rsx.source_tokens(raw, cfg, rename=rename, ret_name=ret, vis=vis, revloops=e.opts.get('revloops'), lebytes=bool(e.opts.get('lebytes')))
+                    want_toks = rsx.source_tokens(raw, cfg, rename=rename, ret_name=ret, vis=vis, revloops=e.opts.get('revloops'), lebytes=bool(e.opts.get('lebytes')), destruct=bool(e.opts.get('destruct')), localconst=bool(e.opts.get('localconst')))
                     if got != want_toks:
                         u.erasure_ok = False
                         # find first difference
